@@ -25,7 +25,8 @@ def near(txt, held, slack=0):
     v = -v if neg else v
     if held is None or not np.isfinite(held):
         return False
-    return abs(v - Fraction(float(held))) * 2 <= (1 + 2 * slack) * Fraction(10) ** place
+    # 1e-6 of a unit of slack: the number printed and the number read back from the object a moment later can differ by rounding noise
+    return abs(v - Fraction(float(held))) * 2 <= (1 + 2 * slack) * Fraction(10) ** place * (1 + Fraction(1, 10 ** 6))
 
 
 def held_state(fit):
